@@ -43,6 +43,8 @@ type c14Blip struct {
 	expected int
 	received int
 	revAtts  int  // attachments carried by the rev message received for cur
+	errCode  int  // != 0: the client answers the rev of cur with this error instead of accepting it
+	answered int  // 0 = not answered, 1 = accepted, 2 = answered with the error
 	failed   bool // a violation was recorded by the rev handler
 }
 
@@ -156,10 +158,25 @@ func (b *c14Blip) onRev(msg *blip.Message) {
 		b.failed = true
 		b.mu.Unlock()
 	}
+	b.mu.Lock()
+	errCode := b.errCode
+	b.mu.Unlock()
 	answer := func() {
-		if !msg.NoReply() {
-			msg.Response().SetBody([]byte(`[]`))
+		if msg.NoReply() {
+			return
 		}
+		if errCode != 0 {
+			// the client rejects the revision (conflict / forbidden / unusable / internal error on its side)
+			msg.Response().SetError("HTTP", errCode, "revision rejected by the test client")
+			b.mu.Lock()
+			b.answered = 2
+			b.mu.Unlock()
+			return
+		}
+		msg.Response().SetBody([]byte(`[]`))
+		b.mu.Lock()
+		b.answered = 1
+		b.mu.Unlock()
 	}
 	if d == nil || docID != d.ID {
 		run.Note("blip: rev for unexpected document %q", docID)
@@ -287,9 +304,22 @@ func (b *c14Blip) pullDoc(d *c14Doc) bool {
 		}
 	}
 	b.mu.Lock()
-	b.cur, b.caughtUp, b.expected, b.received, b.revAtts, b.failed = d, false, 0, 0, 0, false
+	b.cur, b.caughtUp, b.expected, b.received, b.revAtts, b.failed, b.answered = d, false, 0, 0, 0, false, 0
+	// how the client will answer the rev: seeded
+	b.errCode = 0
+	if h.r.Chance(40, 100) {
+		b.errCode = vlib.Pick(h.r, []int{409, 403, 500, 422, 404})
+	}
+	errCode := b.errCode
 	b.mu.Unlock()
+	// state predicate "the server has processed the answer": the statistic it bumps, on the goroutine that then withdraws
+	// the allowance, first thing after reading the answer (accepted: num_doc_reads_blip; error: rev_error_count)
 	stat := h.e.rt.GetDatabase().DbStats.Database().NumDocReadsBlip
+	phase := "after-the-rev-was-answered"
+	if errCode != 0 {
+		stat = h.e.rt.GetDatabase().DbStats.CBLReplicationPull().RevErrorCount
+		phase = "after-the-rev-was-answered-with-an-error"
+	}
 	base0 := stat.Value()
 	body, _ := json.Marshal(map[string]any{"docIDs": []string{d.ID}})
 	var resp *blip.Message
@@ -338,8 +368,17 @@ func (b *c14Blip) pullDoc(d *c14Doc) bool {
 		return false
 	}
 	run.Count("blip_pulls_completed", 1)
-	if revAtts == 0 {
+	b.mu.Lock()
+	answered := b.answered
+	b.mu.Unlock()
+	if revAtts == 0 || answered == 0 {
 		return true
+	}
+	if answered == 2 {
+		run.Count("blip_revs_with_attachments_answered_with_an_error", 1)
+		run.Count(fmt.Sprintf("blip_revs_with_attachments_answered_with_an_error.%d", errCode), 1)
+	} else {
+		run.Count("blip_revs_with_attachments_accepted", 1)
 	}
 	// state predicate: the server has processed the answer to the rev (statistic bumped just before the allowance is withdrawn)
 	deadline := time.Now().Add(c14BlipWatchdog)
@@ -367,12 +406,12 @@ func (b *c14Blip) pullDoc(d *c14Doc) bool {
 			}
 		}
 		if !refused {
-			h.violation("blip", b.sig("getAttachment-served-after-the-rev-was-answered"),
-				fmt.Sprintf("getAttachment(docID=%s, digest=%s) is still served after the rev %s was answered and the server accounted the answer (600 probes)", d.ID, c.Digest, w.ID),
-				map[string]any{"docID": d.ID, "digest": c.Digest, "protocol": b.proto})
+			h.violation("blip", b.sig("getAttachment-served-"+phase),
+				fmt.Sprintf("getAttachment(docID=%s, digest=%s) is still served after the rev %s was answered (client's answer: error code %d, 0 = accepted) and the server accounted the answer (600 probes)", d.ID, c.Digest, w.ID, errCode),
+				map[string]any{"docID": d.ID, "digest": c.Digest, "protocol": b.proto, "client_answer_to_the_rev_error_code": errCode})
 			return false
 		}
-		run.Count("getattachment_refused_as_required.after-the-rev-was-answered", 1)
+		run.Count("getattachment_refused_as_required."+phase, 1)
 	}
 	return true
 }
